@@ -11,6 +11,13 @@ func sessionCheck(prop, tier, module, mcCfg, dumpCfg string, extraNote string) {
 	run := evid.NewRun(prop, tier)
 	mc := modelCheck(module, mcCfg, 16)
 	gs := dumpEdges(module, dumpCfg)
+	if module == "MC_Session" {
+		// the error-counting family is a separate instance
+		emc := modelCheck("MC_Err", "MC_Err.cfg", 16)
+		mc.Distinct += emc.Distinct
+		mc.Generated += emc.Generated
+		gs = append(gs, dumpEdges("MC_Err", "Dump_Err.cfg")...)
+	}
 	maxEdges := 0
 	st := tourAll(run, gs, maxEdges)
 	// code -> spec: random walks recorded on the real server, validated by TLC
